@@ -47,7 +47,11 @@ def gen_rhs(rng, kind, n, bad_rate):
 
 
 def _fits_int64(col):
-    for x in list(col):
+    try:
+        cells = list(col)
+    except Exception:       # noqa: BLE001  (a column left unreadable by an out-of-model step)
+        return False
+    for x in cells:
         if isinstance(x, (int, float)) and x == x and abs(x) >= 2 ** 62:
             return False
     return True
@@ -207,6 +211,11 @@ def gen_op(rng, r, weights, bad_rate=0.08, max_pool=7, max_rows=9):
             if rng.random() < bad_rate:
                 rel = list(range(len(P)))
             t2 = rng.choice(rel)
+            # relatives whose same-named column was re-typed in between: outside the model (Spec.step: OutOfModel) and
+            # the implementation then builds columns that cannot even be read, so nothing after it could be judged
+            if P[t2]._id == dm._id and any(n2 in P[t2]._cols and type(P[t2]._cols[n2]) is not type(c2)
+                                           for n2, c2 in dm._cols.items()):
+                continue
             return {'op': 'merge', 'mop': rng.choice(['MAnd', 'MOr', 'MXor']), 't': ti, 't2': t2}
         if k == 'slice':
             return {'op': 'slice', 't': ti, 'a': rng.choice([None, 0, 1, 2, -2, n]),
